@@ -15,6 +15,13 @@
 //   N  emitted while Connected (and the connection was not established in that very frame) => on the network exactly once;
 //   Q  nothing is put on the network in a frame in which the client is not Connected;
 //   P  no frame panics.
+// Server-to-client direction (same app; `Run` starts / stops the local server - only while the client is Disconnected, the
+// supported listen-server configuration - and gives it one remote authorized client): EmitToClients(Broadcast |
+// BroadcastExcept(SERVER) | Direct(SERVER)).
+//   T  emitted while the app is server or singleplayer => observed locally exactly once precisely when the local server is
+//      among the recipients (Broadcast, Direct(SERVER)), never twice, also across frames;
+//   U  handed to the transport for the remote client at most once, and only while the server is running and the client is
+//      among the recipients.
 #[cfg(test)]
 mod verif_search_e {
     extern crate std;
@@ -26,6 +33,8 @@ mod verif_search_e {
     struct Ping([u8; 8]);
     #[derive(Event, Serialize, Deserialize, Clone, Copy, Debug)]
     struct Poke([u8; 8]);
+    #[derive(Event, Serialize, Deserialize, Clone, Copy, Debug)]
+    struct Pong([u8; 8]);
 
     fn payload(kind: u8, id: u16) -> [u8; 8] { [0xD1, 0x5E, 0, kind, id as u8, (id >> 8) as u8, 0xC0, 0xDE] }
     fn ids_in(bytes: &[u8]) -> Vec<u16> {
@@ -36,6 +45,10 @@ mod verif_search_e {
     /// What server-side logic observed locally: (id, sender).
     #[derive(Resource, Default)]
     struct Seen(Vec<(u16, Entity)>);
+    /// Server events observed by the local game (ids).
+    #[derive(Resource, Default)]
+    struct SeenPong(Vec<u16>);
+    fn see_pongs(mut seen: ResMut<SeenPong>, mut pongs: EventReader<Pong>) { for e in pongs.read() { seen.0.push(id_of(&e.0)); } }
 
     fn see_events(mut seen: ResMut<Seen>, mut pings: EventReader<FromClient<Ping>>) {
         for e in pings.read() { seen.0.push((id_of(&e.event.0), e.client)); }
@@ -55,26 +68,33 @@ mod verif_search_e {
     #[derive(Clone, Copy, Debug, PartialEq)]
     enum St { Disconnected, Connecting, Connected }
     #[derive(Clone, Copy, Debug, PartialEq)]
-    enum Op { Status(St), EmitEvent, EmitTrigger, Frame }
+    enum Op { Status(St), EmitEvent, EmitTrigger, Frame, Run(bool), EmitToClients(u8) }
 
     /// What is promised for an event, decided in the frame that first processes it.
     #[derive(Clone, Copy, Debug, PartialEq)]
     enum Promise { Undecided, LocalOnce, NetOnce, AtMostOnce }
 
     struct Emitted { id: u16, promise: Promise, net: usize, local: usize }
+    /// A server event: mode 0 Broadcast, 1 BroadcastExcept(SERVER), 2 Direct(SERVER); `decided`: (local expected or None = at most once, remote expected)
+    struct ToSent { id: u16, mode: u8, decided: Option<(Option<usize>, usize)>, net: usize, local: usize }
 
     fn run(ops: &[Op]) -> Option<String> {
         let mut app = App::new();
-        app.add_plugins((MinimalPlugins, RepliconPlugins))
+        app.add_plugins((MinimalPlugins, RepliconPlugins.set(ServerPlugin { tick_policy: TickPolicy::EveryFrame, ..Default::default() })))
             .add_client_event::<Ping>(Channel::Ordered)
             .add_client_trigger::<Poke>(Channel::Ordered)
+            .add_server_event::<Pong>(Channel::Ordered)
             .init_resource::<Seen>()
-            .add_systems(Update, see_events)
+            .init_resource::<SeenPong>()
+            .add_systems(Update, (see_events, see_pongs))
             .add_observer(see_triggers)
             .finish();
         let mut status = St::Disconnected;
         let mut was_connected = false; // status in the previous frame
         let mut events: Vec<Emitted> = Vec::new();
+        let mut running = false;
+        let mut remote: Option<Entity> = None;
+        let mut to_clients: Vec<ToSent> = Vec::new();
         let mut next_id = 1u16;
         let total = ops.len() + 3;
         for step in 0..total {
@@ -84,6 +104,17 @@ mod verif_search_e {
                     status = s;
                     app.world_mut().resource_mut::<RepliconClient>().set_status(match s {
                         St::Disconnected => RepliconClientStatus::Disconnected, St::Connecting => RepliconClientStatus::Connecting, St::Connected => RepliconClientStatus::Connected });
+                }
+                Op::Run(on) => {
+                    running = on;
+                    app.world_mut().resource_mut::<RepliconServer>().set_running(on);
+                    remote = if on { Some(app.world_mut().spawn((ConnectedClient { max_size: 1200 }, AuthorizedClient)).id()) } else { None };
+                }
+                Op::EmitToClients(mode) => {
+                    let m = match mode { 0 => SendMode::Broadcast, 1 => SendMode::BroadcastExcept(SERVER), _ => SendMode::Direct(SERVER) };
+                    app.world_mut().send_event(ToClients { mode: m, event: Pong(payload(2, next_id)) });
+                    to_clients.push(ToSent { id: next_id, mode, decided: None, net: 0, local: 0 });
+                    next_id += 1;
                 }
                 Op::EmitEvent => { app.world_mut().send_event(Ping(payload(0, next_id))); events.push(Emitted { id: next_id, promise: Promise::Undecided, net: 0, local: 0 }); next_id += 1; }
                 Op::EmitTrigger => { app.world_mut().client_trigger(Poke(payload(1, next_id))); events.push(Emitted { id: next_id, promise: Promise::Undecided, net: 0, local: 0 }); next_id += 1; }
@@ -95,7 +126,24 @@ mod verif_search_e {
                             _ => Promise::AtMostOnce, // connecting, or the frame in which the session starts (events are reset)
                         };
                     }
+                    for t in to_clients.iter_mut().filter(|t| t.decided.is_none()) {
+                        t.decided = Some(if status == St::Disconnected {
+                            (Some(if t.mode == 1 { 0 } else { 1 }), if running && t.mode != 2 { 1 } else { 0 })
+                        } else { (None, usize::MAX) }); // emitted while the app is a (connecting / connected) client: only 'never twice' is promised
+                    }
                     app.update();
+                    let server_sent: Vec<Vec<u8>> = app.world_mut().resource_mut::<RepliconServer>().drain_sent().filter(|(c, ..)| Some(*c) == remote).map(|(.., m)| m.to_vec()).collect();
+                    for m in &server_sent { for id in ids_in(m) { if let Some(t) = to_clients.iter_mut().find(|t| t.id == id) { t.net += 1; } } }
+                    for id in core::mem::take(&mut app.world_mut().resource_mut::<SeenPong>().0) { if let Some(t) = to_clients.iter_mut().find(|t| t.id == id) { t.local += 1; } }
+                    for t in &to_clients {
+                        let Some((want_local, want_net)) = t.decided else { continue; };
+                        if t.local > want_local.unwrap_or(1) {
+                            return Some(format!("step {step}: server event {} (mode {}) was observed locally {} time(s), the local server is {}among its recipients", t.id, ["Broadcast", "BroadcastExcept(SERVER)", "Direct(SERVER)"][t.mode as usize], t.local, if want_local == Some(0) { "not " } else { "" }));
+                        }
+                        if t.net > want_net.min(1) {
+                            return Some(format!("step {step}: server event {} (mode {}) was handed to the transport {} time(s) for the remote client, expected at most {}", t.id, ["Broadcast", "BroadcastExcept(SERVER)", "Direct(SERVER)"][t.mode as usize], t.net, want_net.min(1)));
+                        }
+                    }
                     let sent: Vec<Vec<u8>> = app.world_mut().resource_mut::<RepliconClient>().drain_sent().map(|(_, m)| m.to_vec()).collect();
                     if status != St::Connected && !sent.is_empty() {
                         return Some(format!("step {step}: {} message(s) were put on the network in a frame in which the client is {status:?}", sent.len()));
@@ -117,6 +165,12 @@ mod verif_search_e {
                 }
             }
         }
+        for t in &to_clients {
+            if let Some((Some(want_local), want_net)) = t.decided {
+                if t.local != want_local { return Some(format!("closing: server event {} (mode {}) was observed locally {} time(s), expected exactly {want_local}", t.id, ["Broadcast", "BroadcastExcept(SERVER)", "Direct(SERVER)"][t.mode as usize], t.local)); }
+                if t.net != want_net && running { return Some(format!("closing: server event {} (mode {}) was handed to the transport {} time(s) for the remote client, expected {want_net}", t.id, ["Broadcast", "BroadcastExcept(SERVER)", "Direct(SERVER)"][t.mode as usize], t.net)); }
+            }
+        }
         for e in &events {
             // only events that went through three closing frames have to be settled
             match e.promise {
@@ -128,11 +182,24 @@ mod verif_search_e {
         None
     }
 
-    fn show(ops: &[Op]) -> String { ops.iter().map(|o| match o { Op::Status(s) => format!("{s:?}"), o => format!("{o:?}") }).collect::<Vec<_>>().join(",") }
+    fn show(ops: &[Op]) -> String { ops.iter().map(|o| match o { Op::Status(s) => format!("{s:?}"), Op::Run(b) => String::from(if *b { "RunOn" } else { "RunOff" }), Op::EmitToClients(m) => format!("EmitToClients{m}"), o => format!("{o:?}") }).collect::<Vec<_>>().join(",") }
+    /// The supported configurations: the local server runs only while the client is Disconnected.
+    fn applicable(ops: &[Op]) -> bool {
+        let (mut status, mut running) = (St::Disconnected, false);
+        for op in ops {
+            match *op {
+                Op::Status(s) => { if running && s != St::Disconnected { return false; } status = s; }
+                Op::Run(on) => { if on == running || (on && status != St::Disconnected) { return false; } running = on; }
+                _ => {}
+            }
+        }
+        true
+    }
     fn parse(sv: &str) -> Vec<Op> {
         sv.split(',').filter(|t| !t.is_empty()).map(|t| match t {
             "Disconnected" => Op::Status(St::Disconnected), "Connecting" => Op::Status(St::Connecting), "Connected" => Op::Status(St::Connected),
-            "EmitEvent" => Op::EmitEvent, "EmitTrigger" => Op::EmitTrigger, _ => Op::Frame,
+            "EmitEvent" => Op::EmitEvent, "EmitTrigger" => Op::EmitTrigger, "RunOn" => Op::Run(true), "RunOff" => Op::Run(false),
+            "EmitToClients0" => Op::EmitToClients(0), "EmitToClients1" => Op::EmitToClients(1), "EmitToClients2" => Op::EmitToClients(2), _ => Op::Frame,
         }).collect()
     }
 
@@ -147,19 +214,26 @@ mod verif_search_e {
             return;
         }
         std::panic::set_hook(std::boxed::Box::new(|_| {})); // panics of the code under test are reported by this harness
-        let depth: usize = std::env::var("VERIF_DEPTH").ok().and_then(|d| d.parse().ok()).unwrap_or(6);
-        let ops = [Op::Status(St::Disconnected), Op::Status(St::Connecting), Op::Status(St::Connected), Op::EmitEvent, Op::EmitTrigger, Op::Frame];
+        let depth: usize = std::env::var("VERIF_DEPTH").ok().and_then(|d| d.parse().ok()).unwrap_or(5);
+        let all_ops = [Op::Status(St::Disconnected), Op::Status(St::Connecting), Op::Status(St::Connected), Op::EmitEvent, Op::EmitTrigger, Op::Frame,
+                       Op::Run(true), Op::Run(false), Op::EmitToClients(0), Op::EmitToClients(1), Op::EmitToClients(2)];
         let mut jobs: Vec<Vec<Op>> = Vec::new();
-        for len in 0..=depth {
-            let mut idx = std::vec![0usize; len];
-            loop {
-                let seq: Vec<Op> = idx.iter().map(|&k| ops[k]).collect();
-                // two status changes in a row are one status change; a trailing Frame is covered by the closing frames
-                let redundant = seq.windows(2).any(|w| matches!(w[0], Op::Status(_)) && matches!(w[1], Op::Status(_))) || seq.last() == Some(&Op::Frame);
-                if !redundant { jobs.push(seq); }
-                let mut k = 0;
-                while k < len { idx[k] += 1; if idx[k] < ops.len() { break; } idx[k] = 0; k += 1; }
-                if k == len { break; }
+        // pass 1: the client-to-server alphabet (first six operations) one step deeper; pass 2: the whole alphabet, only the
+        // sequences that use the local server or a server event
+        for (nops, maxlen, need_new) in [(6usize, depth + 1, false), (all_ops.len(), depth, true)] {
+            let ops = &all_ops[..nops];
+            for len in 0..=maxlen {
+                let mut idx = std::vec![0usize; len];
+                loop {
+                    let seq: Vec<Op> = idx.iter().map(|&k| ops[k]).collect();
+                    // two status changes in a row are one status change; a trailing Frame is covered by the closing frames
+                    let redundant = seq.windows(2).any(|w| matches!(w[0], Op::Status(_)) && matches!(w[1], Op::Status(_))) || seq.last() == Some(&Op::Frame)
+                        || (need_new && !seq.iter().any(|o| matches!(o, Op::Run(_) | Op::EmitToClients(_))));
+                    if !redundant && applicable(&seq) { jobs.push(seq); }
+                    let mut k = 0;
+                    while k < len { idx[k] += 1; if idx[k] < ops.len() { break; } idx[k] = 0; k += 1; }
+                    if k == len { break; }
+                }
             }
         }
         let threads: usize = std::thread::available_parallelism().map(|n| n.get()).unwrap_or(4);
